@@ -60,7 +60,7 @@ class CanonMonitor(Monitor):
 
 class Execution:
     EVAL_CAP = 60000
-    TIME_CAP = 20.0
+    TIME_CAP = 40.0  # seconds of CPU time of this process (not wall clock: the machine may be busy)
 
     def __init__(self, desc, dev=(), monitor_classes=(), shim=None, drive=None, keep_world=True):
         self.desc = desc
@@ -94,17 +94,17 @@ class Execution:
 
     # ----------------------------------------------------------------------------------
     def _alarm(self, signum, frame):
-        raise Abort("wall-clock cap (watchdog)")
+        raise Abort("CPU-time cap (watchdog)")
 
     def run(self):
-        t0 = time.time()
+        t0 = time.process_time()
         # watchdog: a runaway that never reaches the objective (e.g. an endless rejection loop) must end as the
         # counted outcome 'aborted', not hang the check
         armed = False
         if threading.current_thread() is threading.main_thread():
             try:
-                old = signal.signal(signal.SIGALRM, self._alarm)
-                signal.setitimer(signal.ITIMER_REAL, self.TIME_CAP * 1.5)
+                old = signal.signal(signal.SIGPROF, self._alarm)
+                signal.setitimer(signal.ITIMER_PROF, self.TIME_CAP * 1.5)
                 armed = True
             except (ValueError, OSError):
                 armed = False
@@ -123,8 +123,8 @@ class Execution:
             self.exc_tb = traceback.format_exc(limit=12)
         finally:
             if armed:
-                signal.setitimer(signal.ITIMER_REAL, 0)
-                signal.signal(signal.SIGALRM, old)
+                signal.setitimer(signal.ITIMER_PROF, 0)
+                signal.signal(signal.SIGPROF, old)
             if self.shim is not None:
                 self.shim.finish()
         return self
@@ -155,7 +155,7 @@ class Execution:
         self.tree = tree = w.tree
 
         def cap(level, x, v):
-            if len(w.log) > self.EVAL_CAP or time.time() - t0 > self.TIME_CAP:
+            if len(w.log) > self.EVAL_CAP or time.process_time() - t0 > self.TIME_CAP:
                 raise Abort("eval/time cap")
 
         w.log.hooks.append(cap)
